@@ -5,7 +5,30 @@ import sys
 from engine import driver
 
 
+def _maybe_snapshot():
+    """development aid: VERIF_SNAPSHOT=1 runs the check from a private copy of engine/ and harness/, so that a long
+    run is not disturbed by edits made to /verif meanwhile (evidence and replays still go to /verif unless VERIF_OUT)."""
+    import shutil
+    import subprocess
+    import tempfile
+    if os.environ.get("VERIF_SNAPSHOT") != "1" or os.environ.get("VERIF_IN_SNAPSHOT") == "1":
+        return
+    root = os.path.dirname(os.path.dirname(os.path.abspath(__file__)))
+    tmp = tempfile.mkdtemp(prefix="d42verif.snap.")
+    try:
+        for d in ("engine", "harness"):
+            shutil.copytree(os.path.join(root, d), os.path.join(tmp, d), ignore=shutil.ignore_patterns("__pycache__"))
+        shutil.copy(os.path.join(root, "known_findings.json"), tmp)
+        env = dict(os.environ, VERIF_IN_SNAPSHOT="1", VERIF_OUT=os.environ.get("VERIF_OUT") or root)
+        os.symlink(os.path.join(root, ".venv"), os.path.join(tmp, ".venv"))
+        rc = subprocess.call([sys.executable, "-m", "engine.cli"] + sys.argv[1:], cwd=tmp, env=env)
+    finally:
+        shutil.rmtree(tmp, ignore_errors=True)
+    sys.exit(rc)
+
+
 def main():
+    _maybe_snapshot()
     ap = argparse.ArgumentParser()
     ap.add_argument("prop")
     ap.add_argument("--tier", default=None)
